@@ -410,6 +410,11 @@ func runPoolWriter(pc *PoolCase, w *TraceWriter, rec *poolRec) {
 					}
 				}
 				w.Ev("livecheck", "ok", ok, "n", len(lens), "bad", -1, "what", "flush image")
+				if sink == nil && len(target) > 0 {
+					// what a Flush left in the caller's slice is the caller's from now on: later cycles of the same writer
+					// do not write to it (it is re-compared after every later Flush)
+					payloads = append(payloads, payload{b: target, copy: append([]byte(nil), target...)})
+				}
 				pend = nil
 				targetOrig = nil
 				cs.IsNil = false
